@@ -873,8 +873,13 @@ pub fn run_import_subst(h: &History, dir: &Path, tag: &str, extra_args: &[&str])
         // the op lines do not list the records in the order the sorter delivers them from this layout
         return Err("err:layout".to_string());
     }
-    let data = dir.join(format!("{tag}.data"));
-    let out = dir.join(format!("{tag}.json"));
+    // the names must be unique per call: two cases with identical op lines (same content hash in `tag`) may run
+    // at the same time on different worker threads, and one would remove the other's files (seen as a transient
+    // `err:exit1` under load)
+    static IMPORT_SEQ: std::sync::atomic::AtomicU64 = std::sync::atomic::AtomicU64::new(0);
+    let uniq = format!("{}-{}", std::process::id(), IMPORT_SEQ.fetch_add(1, std::sync::atomic::Ordering::Relaxed));
+    let data = dir.join(format!("{tag}-{uniq}.data"));
+    let out = dir.join(format!("{tag}-{uniq}.json"));
     let mut layout = Rng::new(fnv1a(&h.to_ops()));
     let subst = PidSubst::new(h);
     // the time order of the records does not depend on the ids, so the layout is the same
@@ -899,6 +904,9 @@ pub fn run_import_subst(h: &History, dir: &Path, tag: &str, extra_args: &[&str])
         if stderr.contains("panicked") {
             Err("panic".to_string())
         } else {
+            if std::env::var("VERIF_VERBOSE").is_ok() {
+                eprintln!("samply import failed ({:?}): {}", res.status, stderr.chars().take(400).collect::<String>());
+            }
             Err(format!("err:exit{}", res.status.code().unwrap_or(-1)))
         }
     } else {
